@@ -748,3 +748,18 @@ Proof.
   destruct m as [s W Sn], m' as [s' W' Sn']. unfold norm. cbn [m_state m_watches m_seen]. intros H. inversion H; subst.
   destruct s, s'. cbn in *. unfold set_saw in *. cbn in *. inversion H1; subst. repeat split; reflexivity.
 Qed.
+
+(** ... including the ChainState handed to the validators, which on every state agrees with
+    the monitor's own depth getters wherever at most one kind of close is recorded *)
+Theorem norm_chain_state m m' : norm m = norm m' -> chain_state (m_state m) = chain_state (m_state m').
+Proof.
+  destruct m as [s W Sn], m' as [s' W' Sn']. unfold norm. cbn [m_state]. intros H. inversion H; subst.
+  destruct s, s'. cbn in *. unfold set_saw in *. cbn in *. inversion H1; subst. reflexivity.
+Qed.
+Theorem chain_state_getters s :
+  (mutual_h s = None \/ unilateral_h s = None) ->
+  chain_state s = (height s, funding_depth s, double_spent_depth s, closing_depth s).
+Proof.
+  unfold chain_state, funding_depth, double_spent_depth, closing_depth.
+  intros [H | H]; rewrite H; destruct (mutual_h s), (unilateral_h s); reflexivity.
+Qed.
